@@ -8,9 +8,11 @@ def run(tier):
         "C02: every admissible projection target (each m_j from 0 to 2n_j) for every list x every row over the call "
         "alphabet; the three apply paths (exact t=m, projected, insufficient) are distinguished per record; inadmissible "
         "targets (zero, too large, wrong dimensionality) must fail at build; values compared to the exact rational "
-        "within half a unit of the printed precision (0, 1, 6, 12 decimals) + 1e-9.",
-        ["MCCreate_c02_quick.cfg", "MCCreate_badproj.cfg"],
-        ["MCCreate_c02_t1.cfg", "MCCreate_badproj.cfg", "MCCreate_hist_t1.cfg"],
+        "within half a unit of the printed precision (0, 1, 6, 12 decimals) + 1e-9. Histories of up to three projected records of "
+        "two populations at EVERY admissible target (also targets of no chromosomes on the first axis): the projector and its "
+        "coordinate buffer are reused from record to record.",
+        ["MCCreate_c02_quick.cfg", "MCCreate_badproj.cfg", "MCCreate_cache.cfg"],
+        ["MCCreate_c02_t1.cfg", "MCCreate_badproj.cfg", "MCCreate_hist_t1.cfg", "MCCreate_cache.cfg"],
         [SAB_SCRATCH, SAB_RESET])
     # cohorts of hundreds of samples, at class level (CreateLarge.tla)
     from vcore import tlc_must_pass, replay
